@@ -723,6 +723,24 @@ def e2e_wrapper_prog(seed, i):
     prims = ["bool", "u8", "i8", "u16", "i16", "u32", "i32", "u64", "i64", "f32", "f64", "usize", "isize", "DiplomatChar"]
     rng.shuffle(prims)
     items = []
+    # the other two kinds of scalar: a C-like enum and a pointer to an opaque (borrowed, optional, boxed in an out-struct)
+    en = spec.Enum("En0", [("Va", None), ("Vb", 5), ("Vc", -2), ("Vd", 2147483647)])
+    we = spec.Struct("We", [("e", ("enum", "En0"))])
+    wwe = spec.Struct("Wwe", [("inner", ("struct", "We"))])
+    wo = spec.Struct("Wo", [("o", ("oref", "Hub", False, "a", False))])
+    wo.lifetimes = ["a"]
+    woo = spec.Struct("Woo", [("o", ("oref", "Hub", False, "a", True))])
+    woo.lifetimes = ["a"]
+    outb = spec.Struct("OutB", [("b", ("obox", "Hub", False))])
+    outb.out, outb.kind = True, "outstruct"
+    items += [en, we, wwe, wo, woo, outb]
+    for nm, t in (("we", ("struct", "We")), ("wwe", ("struct", "Wwe"))):
+        op.methods.append(spec.Method("r_" + nm, ("ref", None), [("n", ("prim", "u8"))], t))
+        op.methods.append(spec.Method("t_" + nm, ("ref", None), [("v", t), ("k", ("prim", "u16"))], ("prim", "u8")))
+        op.methods.append(spec.Method("o_" + nm, ("ref", None), [("v", t)], ("opt", t, "std")))
+    op.methods.append(spec.Method("t_wo", ("ref", None), [("v", ("struct", "Wo")), ("k", ("prim", "u16"))], ("prim", "u8"), lifetimes=["a"]))
+    op.methods.append(spec.Method("t_woo", ("ref", None), [("v", ("struct", "Woo")), ("k", ("prim", "u16"))], ("prim", "u8"), lifetimes=["a"]))
+    op.methods.append(spec.Method("r_outb", ("ref", None), [], ("struct", "OutB")))
     for k, p in enumerate(prims[:7]):
         w = spec.Struct("W%d" % k, [("f0", ("prim", p))])
         items.append(w)
@@ -1072,7 +1090,7 @@ def main(tier, seed):
     # what Rust *receives* and what JS *reads back* for every struct that crosses, in both directions, inside whole call histories
     import api
     e2e = api.js_e2e_leg(chk, seed + 8800, 640 if thorough else 64, "c08e2e", ncalls=(40 if thorough else 30))
-    e2w = api.js_e2e_leg(chk, seed + 8900, 64 if thorough else 8, "c08e2w", ncalls=90, label="js-e2e-wrappers", prepared=lambda i: e2e_wrapper_prog(seed, i))
+    e2w = api.js_e2e_leg(chk, seed + 8900, 64 if thorough else 8, "c08e2w", ncalls=130, label="js-e2e-wrappers", prepared=lambda i: e2e_wrapper_prog(seed, i))
     e2e = {k: (e2e[k] + e2w[k]) for k in e2e}
     chk.evaluations = stats["option_param_checks"] + stats["write_checks_spec"] + stats["flatten_checks_legacy"] + stats["read_checks"] + stats["receive_buffers_checked"] + e2e["calls"]
     chk.distinct = shapes
